@@ -1131,3 +1131,40 @@ Qed.
 Theorem route_first_claim l k :
   assoc k (route_conversion l) = assoc k (flat_map gr_claims (sort_routes l)).
 Proof. unfold route_conversion. rewrite claim_fold. reflexivity. Qed.
+
+(* ---- EndpointSlices ---- *)
+Lemma existsb_perm {A} (f : A -> bool) l l' : Permutation l l' -> existsb f l = existsb f l'.
+Proof.
+  intros Hp. apply eq_true_iff_eq. rewrite !existsb_exists.
+  split; intros (x & Hx & Hf); exists x; (split; [|exact Hf]).
+  - eapply Permutation_in; [exact Hp|exact Hx].
+  - eapply Permutation_in; [apply Permutation_sym; exact Hp|exact Hx].
+Qed.
+
+(* the servers of a service are a function of the SET of its slices *)
+Theorem endpointslices_perm drain pname l l' t :
+  Permutation l l' -> slice_server drain pname l t = slice_server drain pname l' t.
+Proof.
+  intros Hp. unfold slice_server.
+  assert (He : Permutation (slices_entries pname l) (slices_entries pname l'))
+    by (unfold slices_entries; apply Permutation_flat_map; exact Hp).
+  rewrite (existsb_perm (target_eqb t) (notready_targets (slices_entries pname l)) (notready_targets (slices_entries pname l'))),
+          (existsb_perm (target_eqb t) (ready_targets (slices_entries pname l)) (ready_targets (slices_entries pname l'))).
+  - reflexivity.
+  - unfold ready_targets. apply Permutation_map. apply filter_perm. exact He.
+  - unfold notready_targets. apply Permutation_map. apply filter_perm. exact He.
+Qed.
+
+(* ... which a first-occurrence-wins de-duplication would break *)
+Theorem endpointslices_dedup_first_refuted :
+  exists drain pname l l' t, Permutation l l' /\
+    slice_server_dedup_first drain pname l t <> slice_server_dedup_first drain pname l' t.
+Proof.
+  exists false, "http",
+    [ {| sl_ports := [("http", 8080%Z)]; sl_eps := [("172.17.0.11", Some true); ("172.17.0.12", Some false)] |};
+      {| sl_ports := [("http", 8080%Z)]; sl_eps := [("172.17.0.12", Some true); ("172.17.0.13", Some true)] |} ],
+    [ {| sl_ports := [("http", 8080%Z)]; sl_eps := [("172.17.0.12", Some true); ("172.17.0.13", Some true)] |};
+      {| sl_ports := [("http", 8080%Z)]; sl_eps := [("172.17.0.11", Some true); ("172.17.0.12", Some false)] |} ],
+    ("172.17.0.12", 8080%Z).
+  split; [apply perm_swap|]. vm_compute. discriminate.
+Qed.
